@@ -50,10 +50,12 @@ func (e *letterExtractor) Extract(_ context.Context, in *filesystem.ScanInput) (
 	if err != nil {
 		return inventory.Inventory{}, err
 	}
+	// the file is a sequence of <letter><digit> pairs: package name and version
 	var inv inventory.Inventory
-	for _, c := range string(data) {
-		if strings.ContainsRune(e.letters, c) {
-			inv.Packages = append(inv.Packages, &extractor.Package{Name: string(c), Version: "1", Locations: []string{in.Path}})
+	s := string(data)
+	for i := 0; i+1 < len(s); i += 2 {
+		if strings.Contains(e.letters, s[i:i+1]) {
+			inv.Packages = append(inv.Packages, &extractor.Package{Name: s[i : i+1], Version: s[i+1 : i+2], Locations: []string{in.Path}})
 		}
 	}
 	return inv, nil
@@ -71,14 +73,27 @@ const (
 
 var allLetters = "abc"
 
-func contentFor(bits int) string {
+// contentFor decodes code base 3: for each letter 0 = absent, 1 = version 1, 2 = version 2.
+func contentFor(code, nLetters int) string {
 	s := ""
-	for i := 0; i < len(allLetters); i++ {
-		if bits&(1<<i) != 0 {
-			s += allLetters[i : i+1]
+	for i := 0; i < nLetters; i++ {
+		switch code % 3 {
+		case 1:
+			s += allLetters[i:i+1] + "1"
+		case 2:
+			s += allLetters[i:i+1] + "2"
 		}
+		code /= 3
 	}
 	return s
+}
+
+func pow3(n int) int {
+	r := 1
+	for i := 0; i < n; i++ {
+		r *= 3
+	}
+	return r
 }
 
 // VerifAttribution: every package of the final view is attributed to the layer that introduced it.
@@ -117,7 +132,7 @@ func VerifAttribution() {
 		}
 		entries := []tarstub.Entry{{Name: "other-" + string(rune('0'+l)), Typeflag: tar.TypeReg, Mode: 0o644, Content: []byte("x")}}
 		for _, f := range files {
-			act := verifrt.Choice("action", 2+(1<<nLetters))
+			act := verifrt.Choice("action", 2+pow3(nLetters))
 			if l == 0 && act == aDelete {
 				verifrt.Assume(false) // nothing to delete in the first layer
 			}
@@ -129,7 +144,7 @@ func VerifAttribution() {
 				entries = append(entries, tarstub.Entry{Name: ".wh." + f, Typeflag: tar.TypeReg, Mode: 0o600, Content: []byte{}})
 				cur[f] = fileState{}
 			case act >= aWrite:
-				c := contentFor(act - aWrite)
+				c := contentFor(act-aWrite, nLetters)
 				entries = append(entries, tarstub.Entry{Name: f, Typeflag: tar.TypeReg, Mode: 0o644, Content: []byte(c)})
 				cur[f] = fileState{present: true, content: c}
 			}
@@ -165,14 +180,15 @@ func VerifAttribution() {
 	want := 0
 	for _, f := range files {
 		if views[last][f].present {
-			want += len(views[last][f].content)
+			want += len(views[last][f].content) / 2
 		}
 	}
 	verifrt.Assert(len(res.Inventory.Packages) == want, "the scan reports the packages of the final view")
 	for _, p := range res.Inventory.Packages {
 		f := p.Locations[0]
 		has := func(j int) bool {
-			return views[j][f].present && strings.Contains(views[j][f].content, p.Name)
+			// the same package: same name and version (same package URL) at the same location
+			return views[j][f].present && strings.Contains(views[j][f].content, p.Name+p.Version)
 		}
 		// earliest layer L such that the package is present in every view from L to the last
 		L := last
@@ -183,7 +199,7 @@ func VerifAttribution() {
 		if p.LayerDetails == nil {
 			continue
 		}
-		verifrt.ObserveInt("layer-of-"+p.Name, p.LayerDetails.Index)
+		verifrt.ObserveInt("layer-of-"+p.Name+p.Version, p.LayerDetails.Index)
 		verifrt.Assert(p.LayerDetails.Index == L, "package attributed to the earliest layer from which it is present in every later view")
 		if p.LayerDetails.Index == L {
 			verifrt.Assert(p.LayerDetails.Command == chainCommand[L], "layer details carry the build command of that layer")
@@ -209,7 +225,7 @@ func VerifAttribution() {
 // VerifTwin must be violated.
 func VerifTwin() {
 	vos.Reset()
-	img := &fakeimg.Image{Ls: []*fakeimg.Layer{{Index: 0, Entries: []tarstub.Entry{{Name: "f.db", Typeflag: tar.TypeReg, Mode: 0o644, Content: []byte("a")}}}},
+	img := &fakeimg.Image{Ls: []*fakeimg.Layer{{Index: 0, Entries: []tarstub.Entry{{Name: "f.db", Typeflag: tar.TypeReg, Mode: 0o644, Content: []byte("a1")}}}},
 		History: []v1.History{{CreatedBy: "RUN x"}}}
 	out, err := image.FromV1Image(img, image.DefaultConfig())
 	if err != nil {
